@@ -219,8 +219,13 @@ def r11_2(ctx):
         return ((fn_of(ct) or {}).get("resolved") or (fn_of(ct) or {}).get("def")) == cap.id
 
     for b0, bb0, t in de_sites:
-        b, bb, via = _lift(lib, b0, bb0)
+        # the capture may sit in the same body as the synthetic error (also when that body is a closure:
+        # `.map_err(|e| { capture(Ser, e); custom(..) })`), or in the function that hands the closure on
+        b, bb, via = b0, bb0, None
         caps = [(cb, ct) for cb, ct in b.calls() if is_cap(ct) and b.dominates(cb, bb) and cb != bb]
+        if not caps:
+            b, bb, via = _lift(lib, b0, bb0)
+            caps = [(cb, ct) for cb, ct in b.calls() if is_cap(ct) and b.dominates(cb, bb) and cb != bb]
         k = f"{b.raw.get('impl_self_adt', '').rsplit('::', 1)[-1]}::{b.name}"
         seen[k] = seen.get(k, 0) + 1
         key = f"de-custom:{k}:{seen[k] - 1}"
@@ -370,6 +375,40 @@ def r11_3(ctx):
             ctx.ob(f"output:{fmt}:{m}:boxes-error-unchanged", not bad, site(b), "errors propagate through `?` (boxed by From)" if not bad else f"error is rewritten with {bad}")
 
 
+def _merging_helper(lib, b, tr, t, merge, seed_local):
+    """`Err(self.element_failed(seed.0, de_err))`: the returned error goes through a same-crate helper that merges
+    the child state it is given and hands the error back unchanged. Returns None when the Err payload does not
+    come from such a helper call fed by accessor call `t`; else whether the helper merges this element's state."""
+    if not (tr.origin and tr.origin[0] == "call" and tr.origin[2] is not t):
+        return None
+    ht = tr.origin[2]
+    hf = fn_of(ht) or {}
+    h = lib.by_id.get(hf.get("resolved") or hf.get("def"))
+    if h is None or not hf.get("local"):
+        return None
+    # which argument carries the accessor's error
+    err_pos = [i for i, a in enumerate(ht["args"]) if (lambda x: x.origin and x.origin[0] == "call" and x.origin[2] is t and any(st_[0] == "downcast" and st_[1] == "Err" for st_ in x.steps))(trace(b, a))]
+    if len(err_pos) != 1:
+        return None
+    r0 = trace(h, {"k": "copy", "p": {"l": 0, "pr": []}})
+    passes = r0.origin == ("arg", err_pos[0] + 1) and all(st_[0] == "use" for st_ in r0.steps)
+    if not passes:
+        return False
+    rets = h.return_blocks()
+    for mb, mt in h.calls():
+        if ((fn_of(mt) or {}).get("resolved") or (fn_of(mt) or {}).get("def")) != merge.id or len(mt["args"]) < 2:
+            continue
+        ctr = trace(h, mt["args"][1])
+        if not (ctr.origin and ctr.origin[0] == "arg" and all(st_[0] == "use" for st_ in ctr.steps)):
+            continue
+        if not all(h.dominates(mb, r) for r in rets):
+            continue
+        child = trace(b, ht["args"][ctr.origin[1] - 1])
+        if child.origin and ((child.origin[0] == "multi" and child.origin[1] == seed_local) or (child.origin[0] == "call" and child.origin[2]["dest"]["l"] == seed_local)):
+            return True
+    return False
+
+
 @rule("R11.4", 3, "a failing element merges its child state into the visitor before the deserializer error is returned", ["C11"])
 def r11_4(ctx):
     lib = ctx.lib
@@ -396,6 +435,12 @@ def r11_4(ctx):
                 for s in b.blocks[bi]["stmts"]:
                     if s["k"] == "assign" and s["p"]["l"] == 0 and s["rv"]["k"] == "aggregate" and s["rv"].get("variant") == "Err":
                         tr = trace(b, s["rv"]["ops"][0])
+                        via_helper = _merging_helper(lib, b, tr, t, merge, seed_local)
+                        if via_helper is not None:
+                            found = True
+                            if not via_helper:
+                                ok_all = False
+                            continue
                         if tr.origin and tr.origin[0] == "call" and tr.origin[2] is t:
                             found = True
                             merges = [(mb, mt) for mb, mt in b.calls() if ((fn_of(mt) or {}).get("resolved") or (fn_of(mt) or {}).get("def")) == merge.id and b.dominates(mb, bi) and b.dominates(bb, mb)]
@@ -408,4 +453,51 @@ def r11_4(ctx):
                                 ok_all = False
             ctx.ob(f"merge:{b.name}:{f['name']}", found and ok_all, site(b, bb),
                    "the element's state is merged before the error is returned" if found and ok_all else "an element failure returns without merging the element's captured error/source")
+    ctx.ob("accessor-calls", n >= 3, "lib", f"{n} next_*_seed call(s)")
+
+
+@rule("R11.5", 3, "once an element, key or value has failed, the visitor only merges that element's state and returns: no further serializer call and no new capture can overwrite the recorded cause", ["C11"])
+def r11_5(ctx):
+    from model import PathSens
+    import r_c01
+
+    lib = ctx.lib
+    cap, st, src_enum = _capture_fn(lib)
+    stream, _ = r_c01.visitor_impls(lib)
+    vis = {it["name"]: lib.by_id[it["def"]] for it in stream["items"] if it["def"] in lib.by_id}
+    n = 0
+    for mname in ("visit_seq", "visit_map"):
+        b = vis.get(mname)
+        ctx.need(b is not None, f"{mname} of the streaming visitor not found")
+        sup = Super(lib, b, depth=3)
+        ps = PathSens(sup)
+        entry_states = ps.explore([(sup.entry, {})])
+        calls = sup.calls()
+        for nn, nb, t in calls:
+            f = fn_of(t) or {}
+            if f.get("name") not in ("next_element_seed", "next_key_seed", "next_value_seed") or t["dest"]["pr"]:
+                continue
+            n += 1
+            ps.assume[nn] = (("var", 1), None)
+            starts = []
+            for st_ in entry_states.get(nn, []):
+                for lab, m, f2 in ps.step(nn, st_):
+                    if lab not in ("call", "maycall"):
+                        starts.append((m, f2))
+            reached = ps.explore(starts) if starts else {}
+            del ps.assume[nn]
+            bad = []
+            for rn, rb, rt in calls:
+                if rn not in reached or rn == nn:
+                    continue
+                rf = fn_of(rt) or {}
+                touches_ser = rf.get("trait") in ("serde::ser::SerializeSeq", "serde::ser::SerializeMap", "serde::Serializer", "serde::ser::Serializer", "serde::ser::SerializeStruct", "serde::ser::SerializeTuple")
+                is_capture = (rf.get("resolved") or rf.get("def")) == cap.id
+                is_next = rf.get("name") in ("next_element_seed", "next_key_seed", "next_value_seed", "next_element", "next_key", "next_value")
+                if touches_ser or is_capture or is_next:
+                    bad.append((rn, rf.get("def")))
+            ok = bool(starts) and not bad and not ps.overflow
+            ctx.ob(f"failure-is-final:{mname}:{f['name']}", ok, sup.site(bad[0][0]) if bad else sup.site(nn),
+                   "after this accessor fails, control only merges the element's state and returns" if ok else
+                   (f"after this accessor fails, `{bad[0][1]}` can still run: a later failure would overwrite the recorded cause of the translation error" if bad else "the failure edge of this accessor was not found"))
     ctx.ob("accessor-calls", n >= 3, "lib", f"{n} next_*_seed call(s)")
